@@ -1053,6 +1053,8 @@ class Emit:
             return (self.ex(recv[1]), False, False)          # `m.lock().unwrap()`: the guard IS the value (mutexes are not modelled)
         if m == "unwrap" and not args: return (f"(Rs.unwrap {self.atom(recv)})", False, False)
         fn_name = self.unit.get("method_map", {}).get(m, f"Rs.{lname(m)}")      # per-unit meaning of a std method name
+        if m == "map" and recv[0] == "mcall" and recv[2] in ("iter", "into_iter", "iter_mut", "values", "keys", "chars", "lines") and not recv[3]:
+            fn_name = "Rs.map"          # an iterator adaptor, whatever the unit's `method_map` says about `Option::map`
         if m == "starts_with":
             # the vocabulary is selected by NAME (no type inference): `Path::starts_with` is component-wise, `str::starts_with`
             # is a plain prefix test — a receiver that went through a text conversion is a `str`
@@ -1661,6 +1663,11 @@ def find_fragment_in_tokens(it, sel):
             try: c = sub.if_rest()
             except Unsupported: continue
             if c[0] == "iflet" and mentions(c[2], name): found.append(c)
+        if kind == "ifletbody" and t[:2] == ("id", "if") and toks[i + 1][:2] == ("id", "let"):
+            sub = P(toks, it["fname"]); sub.i = i + 1
+            try: c = sub.if_rest()
+            except Unsupported: continue
+            if c[0] == "iflet" and mentions(c[2], name): found.append(c[3])
         if kind in ("if", "iflast") and t[:2] == ("id", "if") and toks[i + 1][:2] != ("id", "let"):
             sub = P(toks, it["fname"]); sub.i = i + 1
             try: c = sub.expr(nostruct=True)
@@ -1683,6 +1690,7 @@ def find_fragment(body, sel):
             if kind == "let" and e[:1] == ("let",) and len(e) == 6 and e[1] == ("bind", name) and e[4] is not None: found.append(e[4])
             if kind in ("if", "iflast") and e[:1] == ("if",) and len(e) == 4 and mentions(e[1], name): found.append(e[1])
             if kind == "iflet" and e[:1] == ("iflet",) and len(e) == 5 and mentions(e[2], name): found.append(e)
+            if kind == "ifletbody" and e[:1] == ("iflet",) and len(e) == 5 and mentions(e[2], name): found.append(e[3])
             if kind == "forbody" and e[:1] == ("for",) and len(e) == 4 and e[1] == ("bind", name.split("@")[0]) \
                and ("@" not in name or mentions(e[2], name.split("@")[1])): found.append(e[3])
             for x in e: walk(x)
@@ -1730,7 +1738,7 @@ def translate_unit(unit, repo):
             if key not in its: raise Unsupported(f"{f}: item `{key}` not found")
             e = find_fragment_in_tokens(its[key], sel) if its[key]["kind"] == "error" else find_fragment(its[key]["body"], sel)
             if e is None: raise Unsupported(f"{f}: `{key}`: fragment `{sel}` not found (or not unique)")
-            decls.append(("fragfx", key + " @ " + sel, ln, {"expr": e, "params": params, "rty": rty, "owner": its[key]["owner"], "unit_body": sel.startswith("forbody:") or sel.startswith("iflet:")}, f))
+            decls.append(("fragfx", key + " @ " + sel, ln, {"expr": e, "params": params, "rty": rty, "owner": its[key]["owner"], "unit_body": sel.startswith("forbody:") or sel.startswith("iflet:") or sel.startswith("ifletbody:")}, f))
             continue
         if ent[0] == "frag":
             # ("frag", file, fn, selector, lean name, [(param, lean type)], lean result type)
